@@ -198,11 +198,14 @@ def configs(tier, seed):
                     continue
                 add("blocks", "%s:b=%s:s=%s" % ([n], [b], [s]), shape=[n], blk=[b], strides=[s])
     more = [([2, 4], [2], [1]), ([2, 4, 3], [2, 2], [2, 1]), ([4, 5], [2, 3], [1, 2]), ([3, 3, 3], [2, 2, 2], [1, 1, 1]), ([2, 3, 2, 3], [1, 2, 2], [2, 1, 1]),
-            ([5, 4], [3, 2], [2, 3]), ([3, 4], [3, 1], [1, 4])]
+            ([5, 4], [3, 2], [2, 3]), ([3, 4], [3, 1], [1, 4]),
+            # three block dimensions with pairwise different strides and several blocks along every axis
+            ([3, 4, 3], [2, 3, 1], [2, 1, 2]), ([4, 3, 4], [2, 2, 2], [2, 1, 3]), ([2, 5, 4], [1, 2, 2], [1, 2, 1]), ([3, 5, 3], [2, 2, 2], [1, 3, 2]),
+            ([4, 4, 3], [1, 2, 1], [3, 1, 2])]
+    more += [([n1, n2], [b1, b2], [s1, s2]) for n1 in (3, 4) for n2 in (2, 4) for b1 in (1, 2) for b2 in (1, 2) for s1 in (1, 2, 3) for s2 in (1, 3)
+             if b1 <= n1 and b2 <= n2 and (full or (n1 + n2 + b1 + b2 + s1 + s2) % 2 == 0)]
     if full:
-        more += [([n1, n2], [b1, b2], [s1, s2]) for n1 in (3, 4) for n2 in (2, 4) for b1 in (1, 2) for b2 in (1, 2) for s1 in (1, 2, 3) for s2 in (1, 3)
-                 if b1 <= n1 and b2 <= n2]
-        more += [([3, 4, 3], [2, 3, 1], [2, 1, 2]), ([4, 3, 4], [2, 2, 2], [2, 1, 3]), ([2, 2, 3, 3], [2, 2, 2], [1, 2, 1])]
+        more += [([2, 2, 3, 3], [2, 2, 2], [1, 2, 1]), ([5, 4, 4], [2, 2, 3], [3, 2, 1]), ([4, 5, 5], [3, 2, 2], [1, 3, 2])]
     for sh, b, s in more:
         add("blocks", "%s:b=%s:s=%s" % (sh, b, s), shape=sh, blk=b, strides=s)
     ids = set()
